@@ -27,7 +27,7 @@ def replay(doc):
         s0, g0 = e2.replay(c["seed"], c["hist"][:-1])
         s, g = e2.replay(c["seed"], c["hist"][:-1])
         g2, exc = e2.step(s, g, c["hist"][-1])
-        v = v + trans_check(c["seed"], c["hist"][:-1], c["hist"][-1], s0, e2.kfull(s0, g0), s, e2.kfull(s, g2), None, exc, {})
+        v = v + trans_check(c["seed"], c["hist"][:-1], c["hist"][-1], s0, e2.kfull(s0, g0, extra=False), s, e2.kfull(s, g2, extra=False), None, exc, {})
     for sig, det in v:
         print("  ", sig, det)
     return [tuple(str(x) for x in s) for s, _ in v]
